@@ -419,3 +419,140 @@ def classes_of(spec):
         if c not in seen:
             seen.append(c)
     return seen
+
+
+# ============================================================================= oracle (on the implementation)
+def judge(spec, ob):
+    """the sentences of the property on one observation -> list of (symptom, detail)"""
+    bad = []
+    nodes = spec['nodes']
+    if ob['construct'] != 'ok':
+        return [('construct-raises', ob['construct'])]
+    mk = ob['maskers']
+    for i, m in mk.items():
+        if m is None:
+            bad.append(('layer-without-masker', 'converted layer %d (%s) has out_features_masker = None' % (i, nodes[i]['k'])))
+    for r in ob['runs']:
+        bits = r['masks']
+        maskbits = {i: bits[m[0]] for i, m in mk.items() if m is not None}
+        al = ref_alive(spec, maskbits)
+        r['alive_ref'] = {i: al[nodes[i]['src']] for i in ob['converted']}
+        for i in sorted(ob['converted']):
+            want = al[nodes[i]['src']]
+            d = r['layers'][i]
+            n = sum(want)
+            if d.get('features') != float(n) or d.get('features_mask') != want:
+                bad.append(('in-features-wrong', 'layer %d: input_features_calculator gives features=%r mask=%r, the tensor feeding it has %d alive features %r' % (i, d.get('features'), d.get('features_mask'), n, want)))
+            elif d.get('in_features') != n:
+                bad.append(('summary-in-features-wrong', 'layer %d: summary in_features=%r, alive input features %d' % (i, d.get('in_features'), n)))
+        for i, nd in enumerate(nodes):
+            if nd['k'] in ('add', 'sub') or (nd['k'] == 'cat' and nd['dim'] == 2):
+                a, b = nd['src'][0], nd['src'][1]
+                if al[a] != al[b]:
+                    bad.append(('sum-operands-differ', 'node %d (%s): operands %d and %d have alive sets %r and %r' % (i, nd['k'], a, b, al[a], al[b])))
+        if r['forward'] != 'ok':
+            bad.append(('forward-raises', r['forward']))
+        else:
+            for i, z in r['zero_in'].items():
+                want = al[nodes[i]['src']]
+                if len(z) == len(want) and any((not w) and (not zz) for w, zz in zip(want, z)):
+                    bad.append(('dead-feature-not-zero', 'layer %d: features %r are dead by the masks but its input activation is not zero there' % (i, [c for c, (w, zz) in enumerate(zip(want, z)) if not w and not zz])))
+        if r['export'] != 'ok':
+            bad.append(('export-raises', r['export']))
+        else:
+            for i, (cin, cout, grp) in r['exported'].items():
+                n = sum(al[nodes[i]['src']])
+                if cin != n:
+                    bad.append(('exported-in-width-wrong', 'exported layer %d has %d input features, the tensor feeding it has %d alive features' % (i, cin, n)))
+                if nodes[i]['k'] in LAYER and cout != sum(al[i]) and not is_dw(nodes[i]):
+                    bad.append(('exported-out-width-wrong', 'exported layer %d has %d output features, alive %d' % (i, cout, sum(al[i]))))
+            if r.get('export_forward') != 'ok':
+                bad.append(('exported-net-does-not-run', r.get('export_forward')))
+    return bad
+
+
+PRIORITY = ['squeeze-trailing-axis-of-4d', 'cat-repeats-a-tensor', 'depthwise-after-cat', 'add-with-cat-operand', 'cat-of-two-fixed-width-tensors',
+            'cat-of-two-flattened-tensors', 'excluded-layer-next-to-searchable']
+
+
+def key_of(symptom, spec):
+    cl = classes_of(spec)
+    for p in PRIORITY:
+        if p in cl:
+            return '%s:%s' % (symptom, p)
+    return symptom
+
+
+# ============================================================================= IR for the Coq model
+def to_ir(spec):
+    """-> (list of Coq node terms, list of searchable layer indices)"""
+    nodes = spec['nodes']
+    sh = CG.shapes(spec)
+    auto = spec.get('autoconvert', True)
+    ir = []
+    for i, nd in enumerate(nodes):
+        k = nd['k']
+        b = lambda v: 'true' if v else 'false'
+        if k == 'in':
+            ir.append('NIn %d' % nd['shape'][0])
+        elif k in LAYER:
+            srch = (not CG.excluded(spec, i)) if auto else (nd.get('pit') is not None)
+            dw = k != 'linear' and nd['groups'] == nd['cin'] and nd['groups'] == nd['cout']
+            ir.append('NLayer %d %d %s %s' % (nd['src'], nd['cout'], 'Dw' if dw else 'Full', b(srch)))
+        elif k in BN:
+            ir.append('NBn %d %s' % (nd['src'], b(auto and not CG.excluded(spec, i))))
+        elif k == 'flatten':
+            rank = len(sh[nd['src']]) + 1
+            st = nd.get('start', 1)
+            if st == 1 or rank - st == 1:
+                mult = 1
+                for d in sh[nd['src']][1:]:
+                    mult *= d
+                ir.append('NFlat %d %d FFlatten' % (nd['src'], mult))
+            else:
+                ir.append('NProp %d TFlatKeep' % nd['src'])
+        elif k == 'squeeze':
+            rank = len(sh[nd['src']]) + 1
+            fn = nd.get('form') != 'method'
+            if nd['dim'] == 1 or rank - nd['dim'] == 1:
+                ir.append('NFlat %d %d %s' % (nd['src'], sh[nd['src']][1] if nd['dim'] == 1 else SQUEEZE_MULT(sh[nd['src']]), 'FSqF' if fn else 'FSqM'))
+            else:
+                ir.append('NProp %d %s' % (nd['src'], 'TSqF' if fn else 'TSqM'))
+        elif k == 'unsqueeze':
+            assert nd['dim'] not in (0, 1)
+            ir.append('NProp %d TUnsq' % nd['src'])
+        elif k in ('add', 'sub'):
+            ir.append('NJoin %d %d false' % tuple(nd['src']))
+        elif k == 'cat' and nd['dim'] == 2:
+            assert len(nd['src']) == 2
+            ir.append('NJoin %d %d true' % tuple(nd['src']))
+        elif k == 'cat':
+            ir.append('NCat [%s]' % '; '.join(str(s) for s in nd['src']))
+        else:
+            assert k in CG.PROP, k
+            ir.append('NProp %d TPlain' % nd['src'])
+    return ir
+
+
+def SQUEEZE_MULT(shape_in):
+    """multiplier of the Flatten calculator a squeeze of the LAST axis gets (repaired code: 1)"""
+    return 1
+
+
+def coq_net(spec):
+    return '[' + '; '.join(to_ir(spec)) + ']'
+
+
+def norm_calc(t):
+    """parsed Coq calc term / python calc term -> comparable nested tuples"""
+    if isinstance(t, tuple) and t and t[0] in ('CConst', 'Const'):
+        return ('K', int(t[-1]))
+    if isinstance(t, tuple) and t and t[0] in ('CMod', 'Mod'):
+        return ('M', int(t[1]))
+    if isinstance(t, tuple) and t and t[0] == 'CFlat':
+        return ('F', norm_calc(t[2]), int(t[3]))
+    if isinstance(t, tuple) and t and t[0] == 'Flat':
+        return ('F', norm_calc(t[1]), int(t[2]))
+    if isinstance(t, tuple) and t and t[0] in ('CCat', 'Cat'):
+        return ('C', tuple(norm_calc(x) for x in t[1]))
+    return ('?', repr(t))
